@@ -73,6 +73,9 @@ func verifRunOne(w verifWitness) (res verifResult) {
 		}
 	}()
 	f(w.Args)
+	if !verifGlobalsUnchanged() {
+		panic(verifViolation{"global-state-modified", ""})
+	}
 	return
 }
 
